@@ -306,6 +306,70 @@ func runCompact(w *World) {
 			}
 		})
 		tainted := rr.taintedKeys()
+		// a start-up compaction on a directory that a dying compaction left behind is a compaction like
+		// any other: what the first restart recovered, a second restart (after that start-up compaction
+		// has run) must recover again
+		for _, p := range pairs {
+			if !strings.Contains(p.cls, "_tmp_file") || strings.Contains(p.cls, "rename") {
+				continue
+			}
+			for i := 0; i < 1000; i++ {
+				a := p.with.sl.aof
+				if a == nil || (!a.isRewriting && !a.isWaitRewite) {
+					break
+				}
+				sleep(10 * time.Millisecond)
+			}
+			sleep(200 * time.Millisecond)
+			var first map[string]*CanonKey
+			ssched.NoPreempt(func() { first = canonSnapshot(p.with.sl) })
+			w.kill(p.with.id)
+			c3 := w.mkcfg(id, "", "")
+			c3.DataDir = p.dwith
+			again := w.boot(id, c3)
+			id++
+			for i := 0; i < 3000 && again.err == nil && !again.ready; i++ {
+				sleep(10 * time.Millisecond)
+			}
+			if again.err != nil || !again.ready {
+				w.violate("C16", "second_start_fails_after_crash_in_compaction", "%s: the server started once on the directory left behind, ran its start-up compaction, and does not start a second time: %v", p.what, again.err)
+				p.with = again
+				continue
+			}
+			sleep(300 * time.Millisecond)
+			var second map[string]*CanonKey
+			ssched.NoPreempt(func() { second = canonSnapshot(again.sl) })
+			p.with = again
+			w.probe("second_restarts_compared")
+			// time has passed between the two restarts: holds whose term ends about then may be gone
+			cut := w.now().Unix() + 3
+			for _, snap := range []map[string]*CanonKey{first, second} {
+				for k, ck := range snap {
+					var keep []CanonHold
+					for _, h := range ck.Holds {
+						// (holds with millisecond terms get their full term again at every restart, F21:
+						// what becomes of them across two restarts is not judged here)
+						if h.EFlag&efMs == 0 && (h.EFlag&efUnlim != 0 || h.Deadline > cut+deadlineUnit(h.EFlag)) {
+							keep = append(keep, h)
+						}
+					}
+					if len(keep) != len(ck.Holds) {
+						// the key's other holds and its value depend on the one that ended: not compared
+						delete(first, k)
+						delete(second, k)
+					}
+				}
+			}
+			if ok, d := sameRecovered(first, second); !ok {
+				cls := "startup_compaction_after_crash_changed_recoverable_state"
+				if onlyTaintedDiffer(first, second, tainted, nil) {
+					cls = "relock_" + cls
+				} else if onlyTaintedDiffer(first, second, tainted, rr) {
+					cls = "endedhold_value_" + cls
+				}
+				w.violate("C16", cls, "%s: the first restart on the directory left behind recovers %s; after its start-up compaction a second restart recovers %s (%s)", p.what, canonSig(heldOnly(first), false), canonSig(heldOnly(second), false), d)
+			}
+		}
 		for _, p := range pairs {
 			w.kill(p.with.id)
 			w.kill(p.wo.id)
